@@ -218,6 +218,10 @@ pub(super) fn move_while_borrowed(
             }
         });
 
+        // The cloning nodes that we insert in front of the current node.
+        // They are not going to be visited, so we must record what is borrowed downstream of
+        // them on their behalf—otherwise their ancestors would lose track of those borrows.
+        let mut inserted_clones: Vec<(NodeIndex, NodeIndex)> = Vec::new();
         'dependencies: for edge_id in dependency_edge_ids {
             let dependency_index = call_graph.edge_endpoints(edge_id).unwrap().0;
             match call_graph.edge_weight(edge_id).unwrap() {
@@ -225,7 +229,7 @@ pub(super) fn move_while_borrowed(
                     if borrowed_immutably_now.contains(&dependency_index)
                         || borrowed_later.contains(&dependency_index)
                     {
-                        try_clone(
+                        if let Some(clone_node_id) = try_clone(
                             &mut call_graph,
                             node_index,
                             edge_id,
@@ -236,7 +240,9 @@ pub(super) fn move_while_borrowed(
                             krate_collection,
                             root_scope_id,
                             diagnostics,
-                        )
+                        ) {
+                            inserted_clones.push((clone_node_id, dependency_index));
+                        }
                     }
                 }
                 CallGraphEdgeMetadata::ExclusiveBorrow => {
@@ -263,6 +269,11 @@ pub(super) fn move_while_borrowed(
         let mut borrowed = borrowed_immutably_now;
         borrowed.extend(&borrowed_mutably_now);
         borrowed.extend(&borrowed_later);
+        for (clone_node_id, cloned_index) in inserted_clones {
+            let mut borrowed_by_clone = borrowed.clone();
+            borrowed_by_clone.insert(cloned_index);
+            node2borrows.insert(clone_node_id, borrowed_by_clone);
+        }
         node2borrows.insert(node_index, borrowed);
         visited_nodes.insert(node_index);
 
@@ -300,11 +311,11 @@ fn try_clone(
     krate_collection: &CrateCollection,
     root_scope_id: ScopeId,
     diagnostics: &crate::diagnostic::DiagnosticSink,
-) {
+) -> Option<NodeIndex> {
     let dependency_index = call_graph.edge_endpoints(edge_id).unwrap().0;
     if copy_checker.is_copy(call_graph, dependency_index, component_db, computation_db) {
         // You can't have a "borrow after moved" error for a Copy type.
-        return;
+        return None;
     }
 
     let clone_component_id = call_graph[dependency_index].component_id().and_then(|id| {
@@ -327,7 +338,7 @@ fn try_clone(
             call_graph,
             diagnostics,
         );
-        return;
+        return None;
     };
 
     let clone_node_id = call_graph.add_node(CallGraphNode::Compute {
@@ -344,6 +355,7 @@ fn try_clone(
     );
     call_graph.update_edge(clone_node_id, node_index, CallGraphEdgeMetadata::Move);
     call_graph.remove_edge(edge_id);
+    Some(clone_node_id)
 }
 
 fn emit_ancestor_descendant_borrow_error(
